@@ -1,4 +1,5 @@
 import Driver.Machine
+import Driver.Persist
 import Driver.Sut.Ident
 import Driver.Sut.VClock
 import CrdtModel.Model.GList
@@ -76,8 +77,8 @@ def glistOps : CrdtOps (GList Nat) (GListOp Nat) where
   validateOp := fun _ _ => "ok"
   validateMerge := fun _ _ => "ok"
   eq := some (fun a b => some (decide (a = b)))
-  -- serde round trip restores the same value (the JSON text itself, BigInt digit vectors, is not modelled)
-  persist := some (fun s => (.ok "text", some s))
+  persist := some (persistWith (glistCodec natC))
+  persistOp := some (persistWith (glistOpCodec natC))
   genSpec := glistGenSpec
 
 /-! ## List -/
@@ -149,7 +150,8 @@ def listRawOps : CrdtOps (ListCrdt Nat Nat) (ListOp Nat Nat) where
     | none => "panic"
     | some r => showValidation r
   eq := some (fun a b => some (decide (a = b)))
-  persist := some (fun s => (.ok "text", some s))
+  persist := some (persistWith (listCodec natS natC))
+  persistOp := some (persistWith (listOpCodec natS natC))
   genSpec := listGenSpec
 
 /-- C12: the knowledge `K` is inside the claimed region – the log is well-formed (`ListSpec.LogWF`, decided by `wfB`),
